@@ -1535,50 +1535,141 @@ fn level16_ommer<H: Hashable + Clone, const D: u8>(f: &Frontier<H, D>) -> H {
 
 /// `put_*_subtree_roots` with the chain's own roots of the shards completed so far (as a light
 /// client server would deliver them); one CRoots case. The ledger must not change.
-fn emit_roots(w: &mut World, p: usize, r: &mut Rng, st: &mut Stats) {
+type RootSnap = [Vec<Option<Vec<u8>>>; 3];
+
+/// `get_{sapling,orchard,ironwood}_subtree_root(0..3)` through the plain connection handle or through
+/// the transactional handle.
+fn subtree_root_snapshot(w: &mut World, txn: bool) -> RootSnap {
+    let mut out: RootSnap = [vec![], vec![], vec![]];
+    for i in 0..3u64 {
+        if txn {
+            let (a, b, c) = w
+                .db
+                .db_mut()
+                .transactionally::<_, _, SqliteClientError>(|wdb| {
+                    let a = wdb.get_sapling_subtree_root(i).map_err(SqliteClientError::from)?;
+                    let b = wdb.get_orchard_subtree_root(i).map_err(SqliteClientError::from)?;
+                    let c = wdb.get_ironwood_subtree_root(i).map_err(SqliteClientError::from)?;
+                    Ok((a, b, c))
+                })
+                .expect("getters");
+            out[0].push(a.map(|x| x.to_bytes().to_vec()));
+            out[1].push(b.map(|x| x.to_bytes().to_vec()));
+            out[2].push(c.map(|x| x.to_bytes().to_vec()));
+        } else {
+            out[0].push(w.db.get_sapling_subtree_root(i).expect("getter").map(|x| x.to_bytes().to_vec()));
+            out[1].push(w.db.get_orchard_subtree_root(i).expect("getter").map(|x| x.to_bytes().to_vec()));
+            out[2].push(w.db.get_ironwood_subtree_root(i).expect("getter").map(|x| x.to_bytes().to_vec()));
+        }
+    }
+    out
+}
+
+/// the checkpoint ledger read through the transactional handle
+fn read_ledger_txn(db: &mut TestDb) -> [Ledger; 3] {
+    db.db_mut()
+        .transactionally::<_, _, SqliteClientError>(|wdb| {
+            let a = wdb.with_sapling_tree_mut::<_, _, TErr>(|t| read_pool(t)).map_err(SqliteClientError::from)?;
+            let b = wdb.with_orchard_tree_mut::<_, _, TErr>(|t| read_pool(t)).map_err(SqliteClientError::from)?;
+            let c = wdb.with_ironwood_tree_mut::<_, _, TErr>(|t| read_pool(t)).map_err(SqliteClientError::from)?.expect("ironwood tree");
+            Ok([a, b, c])
+        })
+        .expect("ledger through the transactional handle")
+}
+
+/// `put_*_subtree_roots` with the chain's own roots of the shards completed so far (as a light
+/// client server would deliver them), through the plain connection handle (`txn = false`) or
+/// inside `WalletDb::transactionally` (`txn = true`); one CRoots case. The ledger must not change,
+/// the pool's own getter must return the inserted roots, the other pools' getters must not change
+/// (through both handles), and all roots / witnesses must still match the chain.
+fn emit_roots(w: &mut World, p: usize, txn: bool, r: &mut Rng, st: &mut Stats) {
     use zcash_client_backend::data_api::chain::CommitmentTreeRoot;
     let Some((k, h)) = completed_shard(w, p) else { return };
     let pre = read_ledger(&mut w.db);
+    let snap_pre = subtree_root_snapshot(w, false);
     let before = w.state_after(h - 1).unwrap().clone();
     let blk = w.chain[(h - BASE) as usize].cb.clone();
     let eh = BlockHeight::from_u32(h);
+    let below = BlockHeight::from_u32(BASE - 100);
     // a shard below the birthday (k = 1): its root is the level-16 ommer of the birthday frontier
+    let mut inserted: Vec<Vec<u8>> = vec![];
     let res: Result<(), String> = match p {
         0 => {
             let mut roots = vec![];
             if k == 1 {
-                roots.push(CommitmentTreeRoot::from_parts(BlockHeight::from_u32(BASE - 100), level16_ommer(w.genesis.final_sapling_tree())));
+                roots.push(CommitmentTreeRoot::from_parts(below, level16_ommer(w.genesis.final_sapling_tree())));
             }
             let ls: Vec<sapling::Node> = blk.vtx.iter().flat_map(|t| t.outputs.iter()).map(|o| sapling::Node::from_cmu(&o.cmu().unwrap())).collect();
             roots.push(CommitmentTreeRoot::from_parts(eh, shard_root_by_append(before.final_sapling_tree(), &ls, k)));
+            inserted = roots.iter().map(|x| x.root_hash().to_bytes().to_vec()).collect();
             let db = &mut w.db;
-            catch(|| db.put_sapling_subtree_roots(0, &roots)).map_or(Err("PANIC".into()), |x| x.map_err(|e| format!("{e:?}")))
+            if txn {
+                catch(|| db.db_mut().transactionally::<_, _, SqliteClientError>(|wdb| wdb.put_sapling_subtree_roots(0, &roots).map_err(SqliteClientError::from)))
+                    .map_or(Err("PANIC".into()), |x| x.map_err(|e| format!("{e:?}")))
+            } else {
+                catch(|| db.put_sapling_subtree_roots(0, &roots)).map_or(Err("PANIC".into()), |x| x.map_err(|e| format!("{e:?}")))
+            }
         }
         1 => {
             let mut roots = vec![];
             if k == 1 {
-                roots.push(CommitmentTreeRoot::from_parts(BlockHeight::from_u32(BASE - 100), level16_ommer(w.genesis.final_orchard_tree())));
+                roots.push(CommitmentTreeRoot::from_parts(below, level16_ommer(w.genesis.final_orchard_tree())));
             }
             let ls: Vec<orchard::tree::MerkleHashOrchard> = blk.vtx.iter().flat_map(|t| t.actions.iter()).map(|a| orchard::tree::MerkleHashOrchard::from_cmx(&a.cmx().unwrap())).collect();
             roots.push(CommitmentTreeRoot::from_parts(eh, shard_root_by_append(before.final_orchard_tree(), &ls, k)));
+            inserted = roots.iter().map(|x| x.root_hash().to_bytes().to_vec()).collect();
             let db = &mut w.db;
-            catch(|| db.put_orchard_subtree_roots(0, &roots)).map_or(Err("PANIC".into()), |x| x.map_err(|e| format!("{e:?}")))
+            if txn {
+                catch(|| db.db_mut().transactionally::<_, _, SqliteClientError>(|wdb| wdb.put_orchard_subtree_roots(0, &roots).map_err(SqliteClientError::from)))
+                    .map_or(Err("PANIC".into()), |x| x.map_err(|e| format!("{e:?}")))
+            } else {
+                catch(|| db.put_orchard_subtree_roots(0, &roots)).map_or(Err("PANIC".into()), |x| x.map_err(|e| format!("{e:?}")))
+            }
         }
         _ => {
             let mut roots = vec![];
             if k == 1 {
-                roots.push(CommitmentTreeRoot::from_parts(BlockHeight::from_u32(BASE - 100), level16_ommer(w.genesis.final_ironwood_tree())));
+                roots.push(CommitmentTreeRoot::from_parts(below, level16_ommer(w.genesis.final_ironwood_tree())));
             }
             let ls: Vec<orchard::tree::MerkleHashOrchard> = blk.vtx.iter().flat_map(|t| t.ironwood_actions.iter()).map(|a| orchard::tree::MerkleHashOrchard::from_cmx(&a.cmx().unwrap())).collect();
             roots.push(CommitmentTreeRoot::from_parts(eh, shard_root_by_append(before.final_ironwood_tree(), &ls, k)));
+            inserted = roots.iter().map(|x| x.root_hash().to_bytes().to_vec()).collect();
             let db = &mut w.db;
-            catch(|| db.put_ironwood_subtree_roots(0, &roots)).map_or(Err("PANIC".into()), |x| x.map_err(|e| format!("{e:?}")))
+            if txn {
+                catch(|| db.db_mut().transactionally::<_, _, SqliteClientError>(|wdb| wdb.put_ironwood_subtree_roots(0, &roots).map_err(SqliteClientError::from)))
+                    .map_or(Err("PANIC".into()), |x| x.map_err(|e| format!("{e:?}")))
+            } else {
+                catch(|| db.put_ironwood_subtree_roots(0, &roots)).map_or(Err("PANIC".into()), |x| x.map_err(|e| format!("{e:?}")))
+            }
         }
     };
     if trace() {
-        eprintln!("  op put_subtree_roots pool {p} shard {k} end {h} -> {:?}", res);
+        eprintln!("  op put_subtree_roots pool {p} shard {k} end {h} txn {txn} -> {:?}", res);
     }
     let post = read_ledger(&mut w.db);
+    let post_txn = read_ledger_txn(&mut w.db);
+    let snap_post = subtree_root_snapshot(w, false);
+    let snap_post_txn = subtree_root_snapshot(w, true);
+    // getters: own pool returns the inserted roots, other pools unchanged, both handles agree
+    let mut getters_ok = snap_post == snap_post_txn && post == post_txn;
+    if res.is_ok() {
+        for q in 0..3 {
+            if q == p {
+                for (i, want) in inserted.iter().enumerate() {
+                    if snap_post[q][i].as_ref() != Some(want) {
+                        getters_ok = false;
+                    }
+                }
+            } else if snap_post[q] != snap_pre[q] {
+                getters_ok = false;
+            }
+        }
+    } else if snap_post != snap_pre {
+        getters_ok = false;
+    }
+    if !getters_ok {
+        st.bump("SUBTREE_ROOT_GETTER_MISMATCH");
+    }
     let which = which_roots(&pre, &post, true, r);
     let m = check_merkle(w, &post, &which, r, st);
     let res_s = match &res {
@@ -1587,16 +1678,20 @@ fn emit_roots(w: &mut World, p: usize, r: &mut Rng, st: &mut Stats) {
         Err(_) => err("EOtherErr"),
     };
     case(format!(
-        "CRoots {} {} {} {} {} {} {}",
+        "CRoots {} {} {} {} {} {} {} {}",
         w3_s(&pre),
         res_s,
         w3_s(&post),
         boolc(m.roots_ok()),
         boolc(m.wit_ok()),
         boolc(w.hazard.iter().any(|b| *b)),
-        boolc(m.clean_ok(&w.hazard))
+        boolc(m.clean_ok(&w.hazard)),
+        boolc(getters_ok)
     ));
     st.bump(if res.is_ok() { "roots_ok_ops" } else { "roots_err_ops" });
+    if txn {
+        st.bump("roots_ops_transactional");
+    }
 }
 
 fn mk_world_b(seed: u64, idx: u64, iv: u32, gsize: [u64; 3]) -> World {
@@ -1717,7 +1812,7 @@ fn scripted_histories(seed: u64, r: &mut Rng, st: &mut Stats) {
         for _ in 0..131 {
             w.push_block(&[(1, false)]);
         }
-        emit_roots(&mut w, 1, r, st);
+        emit_roots(&mut w, 1, false, r, st);
         let mut from = BASE;
         while from <= w.tip() {
             emit_scan(&mut w, iv, from, 10, false, r, st);
@@ -1729,7 +1824,7 @@ fn scripted_histories(seed: u64, r: &mut Rng, st: &mut Stats) {
                 w.push_block(&[(1, true)]);
             }
             emit_scan(&mut w, iv, got + 1, 1000, true, r, st);
-            emit_roots(&mut w, 1, r, st);
+            emit_roots(&mut w, 1, true, r, st);
         }
         st.bump("wallet_histories");
     }
@@ -1893,6 +1988,35 @@ fn scripted_histories(seed: u64, r: &mut Rng, st: &mut Stats) {
         emit_trunc(&mut w, BASE + 280, r, st);
         w.finish_migration("cancelled");
         emit_scan(&mut w, iv, BASE + 281, 1000, false, r, st);
+        st.bump("wallet_histories");
+    }
+    // subtree roots of all three pools through the transactional handle and the plain handle
+    {
+        if trace() {
+            eprintln!("scripted subtree roots, both handles");
+        }
+        let iv = 144;
+        let mut w = mk_world_b(seed, 1_000_014, iv, [SHARD - 5, SHARD - 7, SHARD - 4]);
+        for h in 0..14u32 {
+            w.push_block(&[(0, h == 2), (1, h == 3), (2, h == 4)]);
+        }
+        emit_scan(&mut w, iv, BASE, 6, false, r, st);
+        for p in [2usize, 0, 1] {
+            emit_roots(&mut w, p, true, r, st);
+        }
+        emit_scan(&mut w, iv, BASE + 6, 1000, true, r, st);
+        for p in [1usize, 2, 0] {
+            emit_roots(&mut w, p, false, r, st);
+        }
+        // ... and before the shard's leaves are scanned
+        let mut w = mk_world_b(seed, 1_000_015, iv, [SHARD - 5, SHARD - 7, SHARD - 4]);
+        for h in 0..12u32 {
+            w.push_block(&[(0, h == 2), (1, h == 3), (2, h == 4)]);
+        }
+        for p in 0..3usize {
+            emit_roots(&mut w, p, p != 1, r, st);
+        }
+        emit_scan(&mut w, iv, BASE, 1000, true, r, st);
         st.bump("wallet_histories");
     }
     // C06-F2: rewind into a completed subtree whose hash an earlier frontier insertion cached.
@@ -2061,7 +2185,8 @@ fn wallet_history(seed: u64, idx: u64, r: &mut Rng, st: &mut Stats, long: bool) 
         if gsize.iter().any(|g| *g > 0) && r.chance(1, 3) {
             let p = r.below(3) as usize;
             if gsize[p] > 0 {
-                emit_roots(&mut w, p, r, st);
+                let txn = r.bool();
+                emit_roots(&mut w, p, txn, r, st);
             }
         }
     }
